@@ -95,7 +95,9 @@ def r2_checked(ctx, F):
         if f.crate != "starlark":
             continue
         for c in f.calls:
-            if re.search(r"core::num::<impl \w+>::(wrapping_|overflowing_|unchecked_|saturating_)\w+$", c.name):
+            # checked_shl only checks the shift *amount* and silently drops the bits shifted out on the left
+            if re.search(r"core::num::<impl \w+>::((wrapping_|overflowing_|unchecked_|saturating_)\w+|checked_shl)$",
+                         c.name):
                 pos += 1
                 if re.search(NUM_FILES, f.span):
                     n += 1
